@@ -107,6 +107,21 @@ Section Scanner.
   Definition clone (s : scanner) : scanner :=
     {| sc_inner := sc_inner s; sc_params := sc_params s; sc_syms := sc_syms s; sc_mdata := sc_mdata s |}.
 
+  (* Compiler::define_symbol_inner: a name already present is refused (returns false) *)
+  Definition compiler_define (syms : list (string * extval)) (name : string) (v : extval)
+    : list (string * extval) * bool :=
+    if existsb (fun e => String.eqb (fst e) name) syms then (syms, false) else (syms ++ [(name, v)], true).
+
+  (* Scanner::new: the symbols in definition order give the value vector, and name |-> position the map *)
+  Fixpoint new_symmap (syms : list (string * extval)) (i : nat) : list (string * nat) :=
+    match syms with
+    | [] => []
+    | (n, _) :: r => (n, i) :: new_symmap r (S i)
+    end.
+  Definition scanner_new (c : compiled) (default_params : params) (syms : list (string * extval)) : scanner :=
+    {| sc_inner := {| i_compiled := c; i_symmap := new_symmap syms 0 |};
+       sc_params := default_params; sc_syms := map snd syms; sc_mdata := [] |}.
+
   (* ---- operations on one scanner (the &mut self methods) *)
   Inductive lop := LDefine (name : string) (v : extval) | LSetParams (p : params) | LSetData (k : N) (d : udata).
 
@@ -215,6 +230,7 @@ Arguments define_symbol {compiled params udata} s name v.
 Arguments set_scan_params {compiled params udata} s p.
 Arguments set_module_data {compiled params udata} s k d.
 Arguments clone {compiled params udata} s.
+Arguments scanner_new {compiled params udata} c default_params syms.
 Arguments LDefine {params udata} name v.
 Arguments LSetParams {params udata} p.
 Arguments LSetData {params udata} k d.
